@@ -20,8 +20,9 @@ EXTENDS KeyOfSetCache, IOUtils, SequencesExt
 
 Rec == ndJsonDeserialize(IOEnv.TRACE)
 
-TKeys == 0..15
-TClients == 0..15
+(* keys and clients that occur in the trace (constant: evaluated once) *)
+TKeys == {Rec[i].k : i \in {j \in 1..Len(Rec) : Rec[j].e = "gs" \/ Rec[j].e = "ws"}}
+TClients == {Rec[i].c : i \in {j \in 1..Len(Rec) : Rec[j].e = "gs" \/ Rec[j].e = "ws" \/ Rec[j].e = "new"}}
 TElems == {}
 
 VARIABLES l, done,
@@ -179,7 +180,7 @@ TGetStart ==
 
 THidden(c) ==
     /\ \/ Snapshot(c) \/ Probe(c) \/ Flight(c) \/ Install(c)
-       \/ (pc[c].ndb < GeFrom(c, l).db /\ Scan(c))
+       \/ (pc[c].st = "scan" /\ pc[c].ndb < GeFrom(c, l).db /\ Scan(c))
     /\ TFrame
 
 (* hidden: the iteration; the recorded result must be a possible outcome.   *)
@@ -206,7 +207,16 @@ TRead(c) ==
     /\ UNCHANGED <<log, lpres, dirty, lver, entry, db, batch, flight, must, may, gmust, gmay, nops, hist, viol>>
     /\ TFrame
 
-TEvict(k) == (EvictEntry(k) \/ EvictLog(k)) /\ TFrame
+(* evictions are free, but only their order relative to the steps that look *)
+(* at the cache / the staging table matters: allow them only when such a   *)
+(* step is about to happen for the key                                     *)
+TEvict(k) ==
+    /\ \/ /\ \E c \in Clients : pc[c].k = k /\ pc[c].st \in {"probe", "install", "read", "w_update"}
+          /\ EvictEntry(k)
+       \/ /\ \/ \E c \in Clients : pc[c].k = k /\ pc[c].st = "snap"
+             \/ \E c \in Clients : wpend[c].k = k /\ ~wpend[c].started
+          /\ EvictLog(k)
+    /\ TFrame
 
 TGetEnd ==
     /\ Is("ge")
@@ -237,12 +247,14 @@ TFinish ==
     /\ done' = TRUE
     /\ UNCHANGED <<vars, l, wpend, callow, pmust, pmay, pgmu, pgma, tagsSeen, runTags>>
 
+(* (depth-first search explores the LAST disjunct first: events before      *)
+(* hidden steps before evictions)                                          *)
 TNext ==
+    \/ \E k \in Keys : TEvict(k)
+    \/ \E e \in 0..(NextEpoch - 1) : TCommit(e) \/ TNotify(e)
+    \/ \E c \in Clients : TApply(c) \/ TApplyRange(c) \/ TUpdate(c) \/ THidden(c) \/ TRead(c)
     \/ TRun \/ TNew \/ TWriteStart \/ TWriteEnd \/ TSubmit \/ TCommitStart \/ TCommitEnd
     \/ TGetStart \/ TGetEnd \/ TSkip \/ TReset \/ TFinish
-    \/ \E c \in Clients : TApply(c) \/ TApplyRange(c) \/ TUpdate(c) \/ THidden(c) \/ TRead(c)
-    \/ \E e \in 0..(NextEpoch - 1) : TCommit(e) \/ TNotify(e)
-    \/ \E k \in Keys : TEvict(k)
 
 TraceSpec == TInit /\ [][TNext]_tvars
 
